@@ -212,6 +212,7 @@ def tyEq : Ty → Ty → Bool
       | _ => false
   | .opt t, b => match b with | .opt u => tyEq t u | _ => false
   | .typ t, b => match b with | .typ u => tyEq t u | _ => false
+termination_by structural a => a
 /-- `b.Equals(a)` (the argument receives the call), by recursion on `a` -/
 def tyEqR : Ty → Ty → Bool
   | .any, b => match b with | .any => true | _ => false
@@ -234,21 +235,26 @@ def tyEqR : Ty → Ty → Bool
       | _ => false
   | .opt t, b => match b with | .opt u => tyEqR t u | _ => false
   | .typ t, b => match b with | .typ u => tyEqR t u | _ => false
+termination_by structural a => a
 /-- pointwise `ts[i].Equals(us[i])` (lengths already compared) -/
 def tyEqL : List Ty → List Ty → Bool
   | [], _ => true
   | t :: ts, us => match us with | u :: us' => tyEq t u && tyEqL ts us' | [] => false
+termination_by structural ts => ts
 def tyEqRL : List Ty → List Ty → Bool
   | [], _ => true
   | t :: ts, us => match us with | u :: us' => tyEqR t u && tyEqRL ts us' | [] => false
+termination_by structural ts => ts
 /-- every `v` of `ts` has some `ov` in `us` with `ov.Equals(v)` -/
 def inclR : List Ty → List Ty → Bool
   | [], _ => true
   | v :: ts, us => us.any (fun ov => tyEqR v ov) && inclR ts us
+termination_by structural ts => ts
 /-- some `ov` of `ts` with `ov.Equals(v)` -/
 def anyL : List Ty → Ty → Bool
   | [], _ => false
   | ov :: ts, v => tyEq ov v || anyL ts v
+termination_by structural ts => ts
 end
 
 /-! ## values -/
